@@ -1,5 +1,6 @@
 """C12 - Span and SignedDuration as faithful value types (narrow): limits enforced by checked constructors of the field's own
 type, one sign field with known writers, sign checks before unsigned conversions, no panics in the fallible SignedDuration API."""
+from ..rules_r5 import mul_factor
 from ..rules_r5 import span_carry
 import os
 from .. import mir
@@ -31,6 +32,7 @@ def run(ctx, rep):
     run_loneabs(ctx, rep)
     prog = ctx.prog("Q")
     span_carry(rep, prog)
+    mul_factor(rep, prog)
     rep.notes.append("Does not decide equality with 128-bit reference arithmetic or float conversions.")
     setters(rep, prog)
     sign_writers(rep, prog)
